@@ -867,7 +867,8 @@ impl PB<'_> {
             self.q(a)
         };
         let cat = self.op1(14, &[big1, big2]);
-        match self.rng.below(9) {
+        match self.rng.below(11) {
+            9 | 10 => self.gc_small_heap_result(cat),
             0 => self.op1(13, &[cat]),             // strlen: small inline result
             1 => self.op1(11, &[cat]),             // sha256: 32-byte new atom (clone path)
             2 => {
@@ -947,6 +948,81 @@ impl PB<'_> {
                 self.op1(16, &[cat, x])
             }
         }
+    }
+
+    /// apply whose result is a short atom stored on the heap after the checkpoint (a concat result
+    /// or a view into one), whose bytes may or may not be a canonical small integer, and which is
+    /// then consumed by operators whose allocator accounting depends on the representation of
+    /// their operand (substr with assorted bounds, concat, strlen, =):
+    /// (OUTER (a (q . BODY) (c CAT ())) ..)
+    fn gc_small_heap_result(&mut self, cat: u32) -> u32 {
+        let n = self.rng.usize(6);
+        let bytes: Vec<u8> = (0..n)
+            .map(|_| if self.rng.chance(3, 4) { *self.rng.pick(&[0x00u8, 0x01, 0x7f, 0x80, 0xff]) } else { self.rng.below(256) as u8 })
+            .collect();
+        let cut = self.rng.usize(n + 1);
+        let (p1, p2) = (bytes[..cut].to_vec(), bytes[cut..].to_vec());
+        let a1 = self.atom(&p1);
+        let q1 = self.q(a1);
+        let a2 = self.atom(&p2);
+        let q2 = self.q(a2);
+        let small_cat = self.op1(14, &[q1, q2]);
+        let body = match self.rng.below(3) {
+            0 => small_cat,
+            1 => {
+                // a view into the freshly concatenated bytes
+                let junk = self.rng.bytes(3);
+                let ja = self.atom(&junk);
+                let qj = self.q(ja);
+                let longer = self.op1(14, &[qj, small_cat, qj]);
+                let i = self.atom(&int_bytes(3));
+                let qi = self.q(i);
+                let j = self.atom(&int_bytes(3 + n as i128));
+                let qj2 = self.q(j);
+                self.op1(12, &[longer, qi, qj2])
+            }
+            _ => {
+                // a view into the big garbage of the environment
+                let two = self.atom(&[2]);
+                let at = self.rng.usize(500);
+                let i = self.atom(&int_bytes(at as i128));
+                let qi = self.q(i);
+                let j = self.atom(&int_bytes((at + n) as i128));
+                let qj = self.q(j);
+                self.op1(12, &[two, qi, qj])
+            }
+        };
+        let qb = self.q(body);
+        let nil = self.atom(&[]);
+        let qnil = self.q(nil);
+        let env = self.op1(4, &[cat, qnil]);
+        let applied = self.op1(2, &[qb, env]);
+        let uses = 1 + self.rng.usize(3);
+        let mut outs = Vec::new();
+        for _ in 0..uses {
+            let lo = self.rng.usize(n + 2);
+            let hi = lo + self.rng.usize(n + 2 - lo.min(n + 1));
+            let ilo = self.atom(&int_bytes(lo as i128));
+            let qlo = self.q(ilo);
+            let ihi = self.atom(&int_bytes(hi as i128));
+            let qhi = self.q(ihi);
+            let o = match self.rng.below(6) {
+                0 | 1 => self.op1(12, &[applied, qlo, qhi]),
+                2 => self.op1(12, &[applied, qlo]),
+                3 => self.op1(14, &[applied, applied]),
+                4 => self.op1(13, &[applied]),
+                _ => self.op1(9, &[applied, q1]),
+            };
+            outs.push(o);
+        }
+        if outs.len() == 1 {
+            return outs[0];
+        }
+        let mut acc = qnil;
+        for o in outs.into_iter().rev() {
+            acc = self.op1(4, &[o, acc]);
+        }
+        acc
     }
 
     /// The allocator's validated-point cache is the one piece of state an operator leaves behind.
